@@ -101,8 +101,31 @@ def feat_of(case, entry, kind):
     t = case["text"]
     f["has_backslash"] = "\\" in t
     f["quote_then_op"] = bool(re.search(r"[\"'][;&|]", t))
-    words = t.split()
-    f["last_word_escaped_head"] = bool(words) and (words[-1].startswith("\\$") or words[-1].startswith("\\|"))
+    # the last word of the line, where a backslash-escaped blank does not end a word
+    words, cur, i = [], "", 0
+    while i < len(t):
+        if t[i] == "\\" and i + 1 < len(t):
+            cur += t[i:i + 2]
+            i += 2
+        elif t[i] in " \t":
+            if cur:
+                words.append(cur)
+            cur = ""
+            i += 1
+        else:
+            cur += t[i]
+            i += 1
+    if cur:
+        words.append(cur)
+    # parse_line tags a word that starts with an escaped `$` / `|` with the separator `\` and keeps that separator for the following
+    # words as long as they start with a backslash escape too; a line whose LAST token carries it is reported incomplete
+    tagged = False
+    for w in words:
+        if w.startswith("\\$") or w.startswith("\\|"):
+            tagged = True
+        elif not (tagged and w.startswith("\\")):
+            tagged = False
+    f["last_word_escaped_head"] = tagged
     return f
 
 
